@@ -30,3 +30,69 @@ Proof.
     apply String.eqb_eq in Ha, Hb. eauto.
   - destruct dst; [reflexivity|discriminate].
 Qed.
+
+(** decode targets of loops, and the dispatcher facts the read-loop model rests on *)
+Definition target_kind (t : string * string * string) : string := let '(_, _, k) := t in k.
+
+Definition read_targets_ok (ts : list (string * string * string)) : bool :=
+  forallb (fun t => let k := target_kind t in
+                    String.eqb k "none" || String.eqb k "noloop" || String.eqb k "fresh") ts &&
+  existsb (fun t => String.eqb (target_kind t) "fresh") ts.
+
+Lemma read_targets_ok_sound ts :
+  read_targets_ok ts = true ->
+  forall f g k, In (f, g, k) ts -> k <> "shared"%string /\ k <> "unknown"%string.
+Proof.
+  unfold read_targets_ok. rewrite andb_true_iff. intros [H _] f g k Hin.
+  rewrite forallb_forall in H. specialize (H _ Hin). cbn in H.
+  split; intros ->; discriminate.
+Qed.
+
+Fixpoint assoc_s (n : string) (l : list (string * string)) : option string :=
+  match l with [] => None | (k, v) :: r => if String.eqb n k then Some v else assoc_s n r end.
+
+(* doneCh is closed by readLoop only (so only after the handler in flight has returned); readLoop calls the
+   handler directly (no go statement, no closure); NewProxy, CloseProxy and Ping are registered synchronously *)
+Definition dispatch_ok (closers : list string) (shape : Z * Z * Z) (hs : list (string * string)) : bool :=
+  match closers with [c] => String.eqb c "readLoop" | _ => false end &&
+  (let '(g, d, df) := shape in (g =? 0) && (d =? 1) && (df =? 1)) &&
+  match assoc_s "&msg.NewProxy{}" hs, assoc_s "&msg.CloseProxy{}" hs, assoc_s "&msg.Ping{}" hs with
+  | Some a, Some b, Some c => String.eqb a "sync" && String.eqb b "sync" && String.eqb c "sync"
+  | _, _, _ => false
+  end.
+
+Lemma dispatch_ok_sound closers shape hs :
+  dispatch_ok closers shape hs = true ->
+  closers = ["readLoop"%string] /\ shape = (0, 1, 1) /\
+  assoc_s "&msg.NewProxy{}" hs = Some "sync"%string /\ assoc_s "&msg.CloseProxy{}" hs = Some "sync"%string /\
+  assoc_s "&msg.Ping{}" hs = Some "sync"%string.
+Proof.
+  unfold dispatch_ok. rewrite !andb_true_iff. intros [[H1 H2] H3].
+  destruct closers as [|c [|]]; try discriminate. apply String.eqb_eq in H1. subst c.
+  destruct shape as [[g d] df]. rewrite !andb_true_iff in H2. destruct H2 as [[Hg Hd] Hdf].
+  apply Z.eqb_eq in Hg, Hd, Hdf. subst.
+  destruct (assoc_s "&msg.NewProxy{}" hs) as [a|]; [|discriminate].
+  destruct (assoc_s "&msg.CloseProxy{}" hs) as [b|]; [|discriminate].
+  destruct (assoc_s "&msg.Ping{}" hs) as [c|]; [|discriminate].
+  rewrite !andb_true_iff in H3. destruct H3 as [[Ha Hb] Hc].
+  apply String.eqb_eq in Ha, Hb, Hc. subst. auto.
+Qed.
+
+(** layering order of the stream wrappers (gen/GenVisitorStacks.v, unit t5v) against the pinned order *)
+Definition stack_kinds (st : list (string * string * string)) : list string := map (fun x => fst (fst x)) st.
+Fixpoint strs_eqb (a b : list string) : bool :=
+  match a, b with
+  | [], [] => true
+  | x :: a', y :: b' => String.eqb x y && strs_eqb a' b'
+  | _, _ => false
+  end.
+Definition stacks_order_ok (pinned : list string) (stacks : list (list (string * string * string))) : bool :=
+  forallb (fun st => strs_eqb (stack_kinds st) pinned) stacks.
+Lemma stacks_order_ok_sound pinned stacks :
+  stacks_order_ok pinned stacks = true -> forall st, In st stacks -> stack_kinds st = pinned.
+Proof.
+  unfold stacks_order_ok. rewrite forallb_forall. intros H st Hin. specialize (H st Hin).
+  revert H. generalize (stack_kinds st) as a. intros a. revert pinned.
+  induction a as [|x a IH]; intros [|y b]; cbn; try discriminate; [reflexivity|].
+  rewrite andb_true_iff. intros [E H]. apply String.eqb_eq in E. subst. f_equal. now apply IH.
+Qed.
